@@ -144,7 +144,22 @@ class Facts:
     def children(self, body):
         """closure / coroutine bodies nested directly in `body`."""
         q = body['qpath']
-        return [b for b in self.by_crate[body['crate']] if b.get('qparent') == q]
+        out = [b for b in self.by_crate[body['crate']] if b.get('qparent') == q]
+        # closures built here whose definition lies in a helper that was inlined into this body
+        have = {b['qpath'] for b in out}
+        for blk in body['blocks']:
+            for s in blk['s']:
+                r = s.get('r')
+                if r and r.get('k') == 'agg' and r.get('ak') in ('closure', 'coroutine', 'coroutine_closure') and r.get('def'):
+                    d = r['def']
+                    if d not in have and d != q:
+                        cb = self.bodies.get(d)
+                        if cb is None:
+                            cb = next((b for b in self.by_crate[body['crate']] if b['qpath'] == d or b.get('path') == d), None)
+                        if cb is not None and cb['qpath'] not in have:
+                            have.add(cb['qpath'])
+                            out.append(cb)
+        return out
 
     def descendants(self, body):
         out = []
